@@ -6,8 +6,14 @@
               model: same samples, variants (id, chrom, pos, alleles), allele
               indices and missing calls, same phase for every heterozygous call
               (allele order immaterial for unphased ones).
+   Shapes without entries (no samples or no variants) are in the domain: [holds] then demands
+   the same samples and variants and an array without entries (the property's "an empty
+   matrix round-trips to an empty matrix").  Two families are outside what PGEN can hold
+   and are not demanded to round-trip (see ASSUMPTIONS in harness/c07.py): variants without
+   samples (refused with an error; an interpreter crash is not accepted) and calls missing
+   in one allele only.
    C07_Proofs.holds_*_sound state what [holds = true] means. *)
-From HV Require Import Prelude C07_Model.
+From HV Require Import Prelude BpText C07_Text C07_Model C07_Files.
 
 (* ---- the property's domain (its quantifier) ------------------------------- *)
 
@@ -29,6 +35,19 @@ Definition geno_domb (half : bool) (g : geno) : bool :=
   let n := lenZ (g_samples g) in
   (1 <=? n) && (lenZ (g_rows g) =? lenZ (g_variants g))
   && forallb (row_domb half n) (combine (g_variants g) (g_rows g)).
+
+(* the same without the demand of a sample: the shapes 0 x p and 0 x 0 are included *)
+Definition geno_domb0 (half : bool) (g : geno) : bool :=
+  let n := lenZ (g_samples g) in
+  (lenZ (g_rows g) =? lenZ (g_variants g))
+  && forallb (row_domb half n) (combine (g_variants g) (g_rows g)).
+
+(* a matrix without entries *)
+Definition is_empty_geno (g : geno) : bool :=
+  (lenZ (g_samples g) =? 0) || (lenZ (g_variants g) =? 0).
+
+Definition has_half (g : geno) : bool :=
+  existsb (existsb (fun c : call => let '(a, b, _) := c in negb (Bool.eqb (a =? 255) (b =? 255)))) (g_rows g).
 
 Definition chunk_domb (cs : option Z) : bool :=
   match cs with None => true | Some c => 1 <=? c end.
@@ -61,6 +80,13 @@ Definition same_alleles (g g' : geno) : bool :=
   && list_eqb variant_eqb (g_variants g) (g_variants g')
   && list_eqb (list_eqb (allele_equivb (planes g))) (g_rows g) (g_rows g').
 
+(* the object read back from an empty matrix: same samples and variants, no entry *)
+Definition nil_row {A} (l : list A) : bool := match l with [] => true | _ => false end.
+Definition empty_back (g g' : geno) : bool :=
+  list_eqb Z.eqb (g_samples g) (g_samples g')
+  && list_eqb variant_eqb (g_variants g) (g_variants g')
+  && forallb nil_row (g_rows g') && existsb (Z.eqb 0) (g_shape g').
+
 (* wpre / rpre: the _prephased attribute of the writing / reading object *)
 Definition written (wpre : bool) (g : geno) : geno := if wpre then as_prephased g else g.
 Definition as_read (rpre : bool) (g : geno) : geno := if rpre then drop_phase g else g.
@@ -76,37 +102,96 @@ Definition batch_eqb (a b : batch) : bool :=
   && list_eqb Z.eqb (b_cts a) (b_cts b)
   && opt_eqb (list_eqb (list_eqb Z.eqb)) (b_phase a) (b_phase b).
 
+(* what pgenlib itself reports for the files haptools wrote (PvarReader + PgenReader,
+   not through haptools) *)
+Record praw := mkpr {
+  pr_n : Z;                       (* PgenReader.get_raw_sample_ct() *)
+  pr_p : Z;                       (* PgenReader.get_variant_ct() *)
+  pr_cts : list Z;                (* PvarReader.get_allele_ct(i) *)
+  pr_calls : list (list scall)    (* read_alleles_and_phasepresent(i): (allele0, allele1, phasepresent) per sample *)
+}.
+
+Definition scall_eqb (x y : scall) : bool := call_eqb x y.
+
+Definition praw_eqb (x y : praw) : bool :=
+  (pr_n x =? pr_n y) && (pr_p x =? pr_p y) && list_eqb Z.eqb (pr_cts x) (pr_cts y)
+  && list_eqb (list_eqb scall_eqb) (pr_calls x) (pr_calls y).
+
 Record pcase := mkpc {
   pc_g : geno;                         (* the object that is written *)
   pc_cw : option Z; pc_cr : option Z;  (* chunk_size for write / read *)
-  pc_strict_half : bool;               (* harness switch: demand the round trip also for calls missing in
-                                          one allele only (pgenlib cannot store them; default false) *)
   pc_wpre : bool; pc_rpre : bool;      (* _prephased of the writing / reading object *)
   pc_calls : res (Z * list batch);     (* observed: allele_ct_limit and the append_*_batch calls
                                           (recorder around pgenlib.PgenWriter); Err = write raised *)
+  pc_raw : res praw;                   (* observed: the written files read with pgenlib directly;
+                                          Err 0 = nothing to read (write failed / no variants) *)
   pc_back : res geno                   (* observed: the object haptools read back *)
 }.
 
+(* pgenlib's contract, as a check of one stored call against what was read *)
+Definition pload_okb (s l : scall) : bool :=
+  let '(x, y, f) := s in let '(a, b, f') := l in
+  if x =? y then (a =? x) && (b =? y)
+  else if negb (f =? 0) then (a =? x) && (b =? y) && negb (f' =? 0)
+  else (f' =? 0) && (((a =? x) && (b =? y)) || ((a =? y) && (b =? x))).
+
+(* the model of the direct read: from the batches haptools was seen to hand over *)
+Definition model_raw (g : geno) (c : res (Z * list batch)) : res praw :=
+  match c with
+  | Ok (limit, bs) =>
+      if lenZ (g_variants g) =? 0 then Err 0
+      else let pf := mkpf (g_samples g) (g_variants g) limit bs in
+           Ok (mkpr (lenZ (g_samples g)) (lenZ (g_variants g)) (map allele_ct (g_variants g))
+                    (pgen_raw pload_std pf))
+  | Err _ => Err 0
+  end.
+
+(* the contracts checked directly on what pgenlib did: every batch of a write that
+   succeeded meets the precondition (and is within the limit pgenlib was given), and every
+   call read directly relates to the stored one as pload_contract says *)
+Definition contracts_pgen (k : pcase) : bool :=
+  match pc_calls k, pc_raw k with
+  | Ok (limit, bs), Ok r =>
+      forallb (batch_ok limit) bs
+      && list_eqb (list_eqb pload_okb) (concat (map batch_rows bs)) (pr_calls r)
+  | Ok (limit, bs), Err _ => forallb (batch_ok limit) bs
+  | Err _, _ => true
+  end.
+
 Definition model_pgen (k : pcase) : res (Z * list batch) * res geno :=
   let g := written (pc_wpre k) (pc_g k) in
-  (match pgen_write false (pc_cw k) g with
+  (match pgen_write paccept_std false (pc_cw k) g with
    | Ok pf => Ok (pf_limit pf, pf_batches pf)
    | Err e => Err e end,
-   match pgen_roundtrip_model pload_std false (pc_cw k) (pc_cr k) g with
+   match pgen_roundtrip_model paccept_std pload_std false (pc_cw k) (pc_cr k) g with
    | Ok b => Ok (as_read (pc_rpre k) b)
    | Err e => Err e end).
 
 Definition agree_pgen (k : pcase) : bool :=
   let '(c, b) := model_pgen k in
   res_eqb (pair_eqb Z.eqb (list_eqb batch_eqb)) c (pc_calls k)
+  && res_eqb praw_eqb (model_raw (pc_g k) (pc_calls k)) (pc_raw k)
+  && contracts_pgen k
   && res_eqb geno_eqb b (pc_back k).
 
+Definition not_crash (e : Z) : bool := negb (e =? E_Crash) && negb (e =? 12).
+
 Definition holds_pgen (k : pcase) : bool :=
-  if geno_domb (pc_strict_half k) (pc_g k) && chunk_domb (pc_cw k) && chunk_domb (pc_cr k) then
-    match pc_back k with
-    | Ok g' => same_back (pc_wpre k) (pc_rpre k) (pc_g k) g'
-    | Err _ => false
-    end
+  let g := pc_g k in
+  if geno_domb0 true g && chunk_domb (pc_cw k) && chunk_domb (pc_cr k) then
+    if (lenZ (g_samples g) =? 0) && negb (lenZ (g_variants g) =? 0) then
+      (* variants without samples: PGEN cannot hold them; a refusal is accepted, a crash is not *)
+      match pc_back k with
+      | Ok g' => empty_back g g'
+      | Err e => not_crash e
+      end
+    else if has_half g then true      (* a call missing in one allele only: PGEN cannot hold it *)
+    else
+      match pc_back k with
+      | Ok g' => if is_empty_geno g then empty_back g g'
+                 else same_back (pc_wpre k) (pc_rpre k) g g'
+      | Err _ => false
+      end
   else true.
 
 Definition check_pgen (k : pcase) : bool * bool := (agree_pgen k, holds_pgen k).
@@ -123,26 +208,152 @@ Definition vfile_eqb (x y : vfile) : bool :=
 
 Record vcase := mkvc {
   vc_g : geno;
-  vc_indexed : bool;          (* a .tbi/.csi index exists beside the file *)
+  vc_fmt : vfmt; vc_idx : vidx;     (* .vcf / .vcf.gz / .bcf and the index beside the file *)
   vc_wpre : bool; vc_rpre : bool;   (* _prephased of the writing / reading object *)
   vc_file : res vfile;        (* observed: the written file as pysam.VariantFile reads it *)
-  vc_back : res geno          (* observed: the object haptools read back (no region) *)
+  vc_back : res geno;         (* observed: the object haptools read back (no region) *)
+  vc_region : option Z;       (* a contig that is then requested as region ... *)
+  vc_rback : res geno         (* ... observed: what haptools read (Err 0 when none was requested) *)
 }.
 
-Definition model_vcf (k : vcase) : vfile * geno :=
+Definition model_vcf (k : vcase) : vfile * res geno * res geno :=
   let g := written (vc_wpre k) (vc_g k) in
-  (vcf_write g, as_read (vc_rpre k) (vcf_roundtrip_model vload_std false (vc_indexed k) g)).
+  let d := mkvd (vc_fmt k) (vc_idx k) (vcf_write g) in
+  let rd := fun region => match vcf_read vload_std hts_std false false region d with
+                          | Ok b => Ok (as_read (vc_rpre k) b)
+                          | Err e => Err e
+                          end in
+  (vcf_write g, rd None,
+   match vc_region k with Some c => rd (Some c) | None => Err 0 end).
 
 Definition agree_vcf (k : vcase) : bool :=
-  let '(f, b) := model_vcf k in
-  res_eqb vfile_eqb (Ok f) (vc_file k) && res_eqb geno_eqb (Ok b) (vc_back k).
+  let '(f, b, rb) := model_vcf k in
+  res_eqb vfile_eqb (Ok f) (vc_file k) && res_eqb geno_eqb b (vc_back k)
+  && res_eqb geno_eqb rb (vc_rback k).
 
 Definition holds_vcf (k : vcase) : bool :=
-  if geno_domb true (vc_g k) then
+  let g := vc_g k in
+  if geno_domb0 true g then
     match vc_back k with
-    | Ok g' => same_back (vc_wpre k) (vc_rpre k) (vc_g k) g'
+    | Ok g' => if is_empty_geno g then empty_back g g'
+               else same_back (vc_wpre k) (vc_rpre k) g g'
     | Err _ => false
     end
   else true.
 
 Definition check_vcf (k : vcase) : bool * bool := (agree_vcf k, holds_vcf k).
+
+(* ---- the text of the files: names as characters ------------------------------------ *)
+
+(* what was read back, names as text *)
+Record tback := mktb { tb_samples : list str; tb_variants : list tvariant; tb_calls : list (list call) }.
+
+Definition tback_eqb (x y : tback) : bool :=
+  list_eqb str_eqb (tb_samples x) (tb_samples y)
+  && list_eqb tvariant_eqb (tb_variants x) (tb_variants y)
+  && list_eqb (list_eqb call_eqb) (tb_calls x) (tb_calls y).
+
+Definition tvfile_eqb (x y : tvfile) : bool :=
+  list_eqb str_eqb (tf_samples x) (tf_samples y)
+  && list_eqb (pair_eqb tvariant_eqb (list_eqb vcall_eqb)) (tf_recs x) (tf_recs y).
+
+Record tcase := mktc {
+  tc_target : Z;                   (* 0 = .pgen/.psam/.pvar, 1 = .vcf or .vcf.gz (text), 2 = .bcf *)
+  tc_legacy_csv : bool;            (* evaluate the model of the pinned csv dialect (harness switch, false) *)
+  tc_file : tvfile;                (* what is written: samples, variants, GTs (all phased flags explicit) *)
+  tc_text1 : res str;              (* observed: the .psam text / the (decompressed) VCF text; Err 0 = none *)
+  tc_text2 : res str;              (* observed: the .pvar text; Err 0 = none *)
+  tc_view : res tvfile;            (* observed: samples and records as pysam.VariantFile shows them
+                                      (VCF/BCF); Err 0 for .pgen *)
+  tc_back : res tback              (* observed: what haptools read back *)
+}.
+
+Definition span_meta (rows : list (list str)) : list (list str) * list (list str) :=
+  (filter (fun r => match r with f :: _ => starts_with s_hh f | [] => false end) rows,
+   filter (fun r => negb match r with f :: _ => starts_with s_hh f | [] => false end) rows).
+
+(* the rows pysam wrote are the rows of the model, for the ## lines and the QUAL FILTER INFO
+   columns found in them *)
+Definition pvar_matches (rows : list (list str)) (vs : list tvariant) : bool :=
+  let '(meta, rest) := span_meta rows in
+  match rest with
+  | hdr :: recs =>
+      list_eqb (list_eqb str_eqb) rows
+               (pvar_rows meta (combine vs (map (skipn 5) recs)))
+      && (length recs =? length vs)%nat
+  | [] => false
+  end.
+
+Definition vcf_matches (rows : list (list str)) (f : tvfile) : bool :=
+  let '(meta, rest) := span_meta rows in
+  match rest with
+  | hdr :: recs =>
+      list_eqb (list_eqb str_eqb) rows
+               (vcf_rows meta (map (fun r => firstn 3 (skipn 5 r)) recs) f)
+      && (length recs =? length (tf_recs f))%nat
+  | [] => false
+  end.
+
+Definition load_vcall (c : vcall) : call :=
+  let '(a, b, f) := vload_std c in (cast8 a, cast8 b, cast8 f).
+
+(* what haptools holds after reading: variants cut to the record type; an array without
+   entries has no rows *)
+Definition model_tback (n : Z) (f : tvfile) : tback :=
+  mktb (tf_samples f) (map (fun r => cut_variant (fst r)) (tf_recs f))
+       (if (n =? 0) || (lenZ (tf_recs f) =? 0) then [] else map (fun r => map load_vcall (snd r)) (tf_recs f)).
+
+Definition agree_text (k : tcase) : bool :=
+  let f := tc_file k in
+  let n := lenZ (tf_samples f) in
+  let vs := map fst (tf_recs f) in
+  if tc_target k =? 0 then
+    match tc_text1 k, tc_text2 k, tc_back k with
+    | Ok psam, Ok pvar, Ok b =>
+        str_eqb psam (psam_text (tf_samples f))
+        && match read_rows (tc_legacy_csv k) pvar with
+           | Ok rows => pvar_matches rows vs
+           | Err _ => false
+           end
+        && res_eqb (list_eqb str_eqb) (psam_read (tc_legacy_csv k) psam) (Ok (tb_samples b))
+        && res_eqb (list_eqb tvariant_eqb) (pvar_read (tc_legacy_csv k) pvar) (Ok (tb_variants b))
+    | Ok psam, Ok pvar, Err e =>
+        (* the reader failed: the model of the reader fails on the same text *)
+        match psam_read (tc_legacy_csv k) psam, pvar_read (tc_legacy_csv k) pvar with
+        | Ok _, Ok _ => false
+        | _, _ => true
+        end
+    | _, _, _ => false
+    end
+  else if tc_target k =? 1 then
+    match tc_text1 k, tc_view k, tc_back k with
+    | Ok text, Ok view, Ok b =>
+        match (if mem_char c_cr text then Err E_Unmodelled else Ok (csv_rows text)) with
+        | Ok rows => vcf_matches rows f
+        | Err _ => false
+        end
+        && res_eqb tvfile_eqb (vcf_parse text) (Ok f)
+        && tvfile_eqb view f
+        && tback_eqb b (model_tback n f)
+    | _, _, _ => false
+    end
+  else
+    match tc_view k, tc_back k with
+    | Ok view, Ok b => tvfile_eqb view f && tback_eqb b (model_tback n f)
+    | _, _ => false
+    end.
+
+(* the property on the names: the same samples, variant IDs, chromosomes, positions, alleles *)
+Definition holds_text (k : tcase) : bool :=
+  let f := tc_file k in
+  if forallb token_ok (tf_samples f) && forallb (fun r => tvariant_ok (fst r)) (tf_recs f) then
+    match tc_back k with
+    | Ok b => list_eqb str_eqb (tb_samples b) (tf_samples f)
+              && list_eqb tvariant_eqb (tb_variants b) (map fst (tf_recs f))
+    | Err _ => false
+    end
+  else true.
+
+Definition model_text (k : tcase) := (psam_text (tf_samples (tc_file k)), model_tback (lenZ (tf_samples (tc_file k))) (tc_file k)).
+
+Definition check_text (k : tcase) : bool * bool := (agree_text k, holds_text k).
